@@ -467,7 +467,9 @@ impl World for AsWorld {
         let (link_tx, link_rx) = mpsc::channel(16);
         let (stop_tx, stop_rx) = trigger::trigger();
         let lane_buf = NonZeroUsize::new(cfg.lane_buf).unwrap();
-        let lane_config = LaneConfig { input_buffer_size: lane_buf, output_buffer_size: lane_buf, ..Default::default() };
+        // only the lane -> runtime direction is made small: requests must be able to queue up in front
+        // of the agent while its writes are held back
+        let lane_config = LaneConfig { input_buffer_size: NonZeroUsize::new(4096).unwrap(), output_buffer_size: lane_buf, ..Default::default() };
         let config = CombinedAgentConfig {
             agent_config: AgentConfig { default_lane_config: Some(lane_config), ..AgentConfig::DEFAULT },
             runtime_config: AgentRuntimeConfig {
